@@ -47,6 +47,8 @@ def main(tier: str, seed: int, replay: str | None = None) -> int:
     import transforge.type as T
     rep = C.Report("C17", tier, seed)
     rep.proof_stage()
+    rep.proof_stage("C17_engine")   # no run of the engine model reaches an assertion
+    rep.proof_stage("C17_parser")   # the parser model never crashes on any token list
     rng = random.Random(seed)
     nh, npg = (15, 60) if tier == "quick" else (120, 100)
     items = []
